@@ -234,6 +234,7 @@ func runC01(r *Run) {
 		addEval(r, &c, "nested-quantifiers")
 	}
 	c01IfaceListBoundaries(r)
+	c01IfaceListRuns(r)
 	c01Sizes(r)
 	// the same logical document in several Go representations must give the same outcome
 	reps := 300
@@ -323,7 +324,7 @@ func kindMatrix() []kindSample {
 		{"MapNamedKey", map[NStr]int{"a": 1}}, {"MapBoolKey", map[bool]int{true: 1}}, {"MapFloatKey", map[float64]int{1: 1}}, {"MapIfaceKey", map[interface{}]interface{}{"a": 1, 1: "a"}},
 		{"Ptr", pone}, {"NilPtr", nilp}, {"PtrPtr", &pone}, {"NilPtrPtr", nilpp}, {"PtrToNilPtr", &nilp}, {"Slice", []int{1, 2}}, {"NilSlice", nilslice}, {"EmptySlice", []int{}},
 		{"SliceOfPtr", []*int{pone, nil}}, {"SliceOfPtrPtr", []**int{&pone, &nilp, nil}}, {"SliceOfIface", []interface{}{1, nil, "a", 1.5, true, []int{1}, map[string]int{}, nilp, pone}},
-		{"SliceOfIfaceNilOnly", []interface{}{nil}}, {"SliceOfIfaceObjectFirst", []interface{}{map[string]interface{}{"o": 1}, "a", 1, true, 1.5}}, {"SliceOfIfaceListFirst", []interface{}{[]int{1}, 1, "a"}}, {"SliceOfIfaceStructFirst", []interface{}{S1{}, "a", 1}},
+		{"SliceOfIfaceNilOnly", []interface{}{nil}}, {"SliceOfIfaceFloats", []interface{}{float32(1), 2.5, float32(3)}}, {"SliceOfIfaceFloats2", []interface{}{2.5, nil, float32(1.5)}}, {"SliceOfIfaceInts", []interface{}{int8(1), int16(2), int32(3), int64(4), 5, uint8(6), uint16(7), uint32(8), uint64(9), uint(10)}}, {"SliceOfIfaceZeros", []interface{}{8080, 0, true, false, 1.5, 0.0}}, {"SliceOfIfaceObjectFirst", []interface{}{map[string]interface{}{"o": 1}, "a", 1, true, 1.5}}, {"SliceOfIfaceListFirst", []interface{}{[]int{1}, 1, "a"}}, {"SliceOfIfaceStructFirst", []interface{}{S1{}, "a", 1}},
 		{"MapNamedStrKeyIfaceVal", map[NStr]interface{}{"a": 1, "b": "a"}}, {"MapNamedStrKeyStruct", map[NStr]S1{"a": {A: 1}}}, {"Bytes", []byte("a")}, {"String", "a"}, {"PtrString", &s}, {"NamedString", NStr("a")}, {"NamedInt", NInt(1)},
 		{"Struct", S1{A: 1}}, {"PtrStruct", &S1{A: 1}}, {"StructUnexported", S2{}}, {"UnsafePointerLike", uintptr(0)}, {"JsonNumber", json.Number("1")}, {"PtrJsonNumber", func() *json.Number { j := json.Number("1"); return &j }()},
 		{"ArrayOfIface", [2]interface{}{nil, 1}}, {"MapOfIface", map[string]interface{}{"a": nil, "b": 1}}, {"SliceOfSlices", [][]int{{1}, nil}}, {"NaN", math.NaN()},
@@ -385,6 +386,7 @@ func runC09(r *Run) {
 		}
 	}
 	c09Unmodelled(r)
+	c09RepeatedPatterns(r)
 	n := 3000
 	if r.Tier == "thorough" {
 		n = 300000
@@ -520,6 +522,7 @@ func runC03(r *Run) {
 		}
 	}
 	c03QuantifierBodies(r, n)
+	c03Siblings(r, n)
 }
 
 // ---------- C04 ----------
